@@ -190,8 +190,11 @@ fn counting_case(i: u64, seed: u64) -> Out {
         }
         3 => {
             // f64 sketches through the SuperMinHash free functions and the method
-            let a: Vec<f64> = (0..n).map(|k| k as f64 + rng.random::<f64>()).collect();
-            let alt: Vec<f64> = a.iter().map(|x| x + 0.25).collect();
+            // sketch-like values; in half of the cases all below 1 (as for sets much larger than the sketch) with the "different"
+            // partner only one unit in the last place away: nearly equal is not equal
+            let small = rng.random_range(0..2) == 0;
+            let a: Vec<f64> = (0..n).map(|k| if small { rng.random::<f64>() } else { k as f64 + rng.random::<f64>() }).collect();
+            let alt: Vec<f64> = a.iter().map(|x| if small { f64::from_bits(x.to_bits() + 1 + (x.to_bits() & 1)) } else { x + 0.25 }).collect();
             let (b, cnt) = plant(&a, &alt, pattern, &mut rng);
             let c: Vec<f64> = (0..n2).map(|k| if k < n { a[k] } else { 0.5 }).collect();
             let (a1, b1) = (a.clone(), b.clone());
@@ -205,8 +208,9 @@ fn counting_case(i: u64, seed: u64) -> Out {
         }
         4 => {
             // f32 sketches (f32 result)
-            let a: Vec<f32> = (0..n).map(|k| k as f32 + 0.5 * rng.random::<f32>()).collect();
-            let alt: Vec<f32> = a.iter().map(|x| x + 0.25).collect();
+            let small = rng.random_range(0..2) == 0;
+            let a: Vec<f32> = (0..n).map(|k| if small { rng.random::<f32>() } else { k as f32 + 0.5 * rng.random::<f32>() }).collect();
+            let alt: Vec<f32> = a.iter().map(|x| if small { f32::from_bits(x.to_bits() + 1) } else { x + 0.25 }).collect();
             let (b, cnt) = plant(&a, &alt, pattern, &mut rng);
             let (a1, b1) = (a.clone(), b.clone());
             chk!("C14/superminhasher::compute_superminhash_jaccard", judge("superminhasher::compute_superminhash_jaccard<f32>", &call32(move || superminhasher::compute_superminhash_jaccard(&a1, &b1).ok()), cnt, n));
@@ -223,7 +227,7 @@ fn counting_case(i: u64, seed: u64) -> Out {
             let mut s1 = SuperMinHash::<f64, u64, FnvHasher>::new(m, Default::default());
             s1.sketch_slice(&items).unwrap();
             let a: Vec<f64> = s1.get_hsketch().clone();
-            let alt: Vec<f64> = a.iter().map(|x| x + 0.125).collect();
+            let alt: Vec<f64> = a.iter().map(|x| if i % 12 == 5 { f64::from_bits(x.to_bits() + 1) } else { x + 0.125 }).collect();
             let (b, cnt) = plant(&a, &alt, pattern.min(8), &mut rng);
             chk!("C14/SuperMinHash::get_jaccard_index_estimate", judge("SuperMinHash::get_jaccard_index_estimate", &call(std::panic::AssertUnwindSafe(|| s1.get_jaccard_index_estimate(&b).ok())), cnt, m));
             let mut longer = b.clone();
